@@ -61,8 +61,14 @@ FOR_SRC = {
     "LS2": ["loc2 = Signal[Unsigned[2]](self.a, name='loc2', delayed_init=True)", "self.o <<= loc2"],
     "LS3": ["loc3 = Signal[Unsigned[2]](self.a, name='loc3', delayed_init=False)", "self.o <<= loc3"],
     "LS4": ["loc4 = Signal[Unsigned[2]](self.a if self.c else cohdl.Null, name='loc4')", "self.o <<= loc4"],
+    # a record of signals pushed as a whole from a record value: every member carries the value for one step only
+    "RP1": ["if self.c:", "    prec ^= RecP(f=self.a, g=self.b[0])"],
+    "RP2": ["if self.c:", "    prec.push = RecP(self.a, self.b[0])"],
+    # constants merged from the return paths of a helper, bound to a name and assigned to a variable LATER, inside a branch
+    "VC1": ["kc = pickconst()", "if self.b[0]:", "    v @= kc"],
+    "VC2": ["kc = (1 if self.c else 2)", "v @= v + 1", "if self.b[0]:", "    v @= kc"],
 }
-FRAGS = ("F1", "F2", "F3", "F4", "R1", "R2", "B1", "B2", "N1", "N2", "N3", "N4", "MD1", "MD2", "LS1", "LS2", "LS3", "LS4")
+FRAGS = ("F1", "F2", "F3", "F4", "R1", "R2", "B1", "B2", "N1", "N2", "N3", "N4", "MD1", "MD2", "LS1", "LS2", "LS3", "LS4", "RP1", "RP2", "VC1", "VC2")
 
 M2 = 3
 
@@ -144,15 +150,16 @@ class Ref:
         self.pn = 0
         self.vi = 0
         self.vb = 0
+        self.prec = (0, 0)  # pushed record: value for one step, default otherwise
         self.loc = None  # signal constructed inside the body without default: undefined until first assigned, kept by reset
 
     def snapshot(self):
         st = self.st
-        return (st["s"], st["mem"], st["v"], st["o"], self.p, self.ond, self.onr, self.orst, self.onr2, self.pn, self.onrr, self.vi, self.vb, self.loc)
+        return (st["s"], st["mem"], st["v"], st["o"], self.p, self.ond, self.onr, self.orst, self.onr2, self.pn, self.onrr, self.vi, self.vb, self.loc, self.prec)
 
     def restore(self, sn):
         self.st = {"s": sn[0], "mem": sn[1], "v": sn[2], "o": sn[3]}
-        self.p, self.ond, self.onr, self.orst, self.onr2, self.pn, self.onrr, self.vi, self.vb, self.loc = sn[4:]
+        self.p, self.ond, self.onr, self.orst, self.onr2, self.pn, self.onrr, self.vi, self.vb, self.loc, self.prec = sn[4:]
 
     def do_reset(self):
         pn = self.pn  # noreset: keeps its value while reset is active
@@ -171,7 +178,7 @@ class Ref:
     def comb(self, inp):
         """continuously driven outputs for the current state and inputs"""
         st = self.st
-        d = {"oc": st["s"] ^ inp[0], "os": st["s"], "om0": st["mem"][0], "om1": st["mem"][1]}
+        d = {"oc": st["s"] ^ inp[0], "os": st["s"], "om0": st["mem"][0], "om1": st["mem"][1], "orf": self.prec[0], "org": self.prec[1]}
         if self.c04:
             d["onrr"] = self.onrr
         alw = find_alw(self.prog)
@@ -302,6 +309,16 @@ class Ref:
                     self.loc_next = inp[0]
                 elif k == "LS4":
                     nxt["o"] = inp[0] if inp[2] else 0
+                elif k in ("RP1", "RP2"):
+                    if inp[2]:
+                        self.prec_next = (inp[0], inp[1])
+                elif k == "VC1":
+                    if inp[1]:
+                        st["v"] = 1 if inp[2] else 2
+                elif k == "VC2":
+                    st["v"] = (st["v"] + 1) & M2
+                    if inp[1]:
+                        st["v"] = 1 if inp[2] else 2
                 elif k == "F4":
                     a = inp[0]
                     st["v"] = (st["v"] + bin(a).count("1")) & M2
@@ -313,8 +330,10 @@ class Ref:
         # v is a process variable: mutate a copy of the dict but keep signal reads on old values
         st = dict(self.st)
         self.loc_next = self.loc
+        self.prec_next = (0, 0)
         run(self.prog)
         self.loc = self.loc_next
+        self.prec = self.prec_next
         new = dict(self.st)
         new["v"] = st["v"]
         if "s" in nxt:
@@ -352,6 +371,7 @@ def _partial_then_whole_ok(prog):
 def render(prog, reset=None, entity="T", locals_in_body=False, c04=False, on_reset=False):
     L = ["from __future__ import annotations", "from cohdl import std, Entity, Port, Bit, BitVector, Unsigned, Signal, Variable, Array", "import cohdl", "",
          "class RecNR(std.Record):", "    f: Unsigned[2]", "    g: Bit", "",
+         "class RecP(std.Record):", "    f: Unsigned[2]", "    g: Bit", "",
          f"class {entity}(Entity):", "    clk = Port.input(Bit)"]
     if reset is not None:
         L.append("    rst = Port.input(Bit)")
@@ -359,7 +379,7 @@ def render(prog, reset=None, entity="T", locals_in_body=False, c04=False, on_res
           "    o = Port.output(Unsigned[2], default=0)", "    p = Port.output(Unsigned[2], default=0)",
           "    pn = Port.output(Unsigned[2], default=0, noreset=True)",
           "    oa = Port.output(Unsigned[2])", "    oc = Port.output(Unsigned[2])", "    os = Port.output(Unsigned[2])",
-          "    om0 = Port.output(Bit)", "    om1 = Port.output(Bit)"]
+          "    om0 = Port.output(Bit)", "    om1 = Port.output(Bit)", "    orf = Port.output(Unsigned[2])", "    org = Port.output(Bit)"]
     if c04:
         L += ["    ond = Port.output(Unsigned[2])", "    onr = Port.output(Unsigned[2], default=0, noreset=True)",
               "    onr2 = Port.output(Unsigned[2], default=0, noreset=True)", "    orst = Port.output(Unsigned[2], default=0)",
@@ -369,6 +389,8 @@ def render(prog, reset=None, entity="T", locals_in_body=False, c04=False, on_res
     L += ["    def architecture(self):",
           "        s = Signal[Unsigned[2]](0)", "        mem = Signal[Array[Bit, 2]]([False, False])", "        v = Variable[Unsigned[2]](0)",
           "        vi = Variable[Unsigned[1]](0)", "        vb = Variable[bool](False)",
+          "        prec = std.Signal[RecP](f=0, g=False)",
+          "        def pickconst():", "            if self.c:", "                return 1", "            return 2",
           "        def nop():", "            pass",
           "        def proc_nested(sig, var):", "            if self.c:", "                var @= var + 1", "            else:",
           "                if self.b[0]:", "                    return", "            nop()", "            sig <<= self.a",
@@ -389,7 +411,7 @@ def render(prog, reset=None, entity="T", locals_in_body=False, c04=False, on_res
           "        def first_set():", "            for i in range(2):", "                if self.a[i]:",
           "                    return Unsigned[2](i + 1)", "            return Unsigned[2](0)",
           "        @std.concurrent", "        def conc():", "            self.oc <<= s ^ self.a", "            self.os <<= s",
-          "            self.om0 <<= mem[0]", "            self.om1 <<= mem[1]"]
+          "            self.om0 <<= mem[0]", "            self.om1 <<= mem[1]", "            self.orf <<= prec.f", "            self.org <<= prec.g"]
     if find_alw(prog) is None:
         L.append("            self.oa <<= Unsigned[2](0)")
     if c04:
@@ -407,7 +429,7 @@ def render(prog, reset=None, entity="T", locals_in_body=False, c04=False, on_res
             L.append("        @base_ctx.with_params(step_cond=lambda: self.en)")
         else:
             L.append(f"        @std.sequential(std.Clock(self.clk), std.Reset(self.rst, is_async={reset['is_async']}, active_low={reset['active_low']}){sc}{onr})")
-    L += ["        def proc():", "            nonlocal s, v, vi, vb"]
+    L += ["        def proc():", "            nonlocal s, v, vi, vb, prec"]
     if c04:
         L += ["            self.ond <<= self.a", "            self.onr <<= self.a", "            self.orst <<= 1",
               "            self.onr2[0] <<= self.a[0]", "            self.onr2[1:1] <<= self.a[1:1]", "            nrr.f <<= self.a"]
